@@ -1,8 +1,9 @@
 ---------------------------- MODULE InputRootMC ----------------------------
 (***************************************************************************)
 (* Tiny exhaustive configuration of InputRoot.tla: four Directory messages *)
-(* forming a DAG (dA is shared by "a" and "b"; dE, the empty directory, is *)
-(* shared by "e", "a/sub" and "b/sub"), depth 3, one malformed message     *)
+(* forming a DAG (dE, the empty directory, is shared by "e" and "a/sub";   *)
+(* dA is shared by "a" and by what CreateChildren inserts as a new lazy    *)
+(* directory), depth 3, one malformed message                              *)
 (* (duplicate name across files and symlinks), one message with an invalid *)
 (* name, one with an unparsable digest, one missing message, one injected  *)
 (* storage error; all exploration orders interleaved with two local        *)
@@ -21,7 +22,7 @@ dA == Raw(<<D("sub", "dE")>>, <<F("g", "c2", 1, FALSE)>>, <<>>)
 dM == Raw(<<>>, <<F("g", "c1", 2, FALSE)>>, <<S("g", "t")>>)          \* duplicate name
 dI == Raw(<<D("..", "dE")>>, <<>>, <<>>)                               \* invalid name
 dB == Raw(<<D("k", "BAD")>>, <<>>, <<>>)                               \* unparsable digest
-dR == Raw(<<D("a", "dA"), D("b", "dA"), D("e", "dE"), D("m", "dM"), D("x", "dX")>>,
+dR == Raw(<<D("a", "dA"), D("e", "dE"), D("m", "dM"), D("x", "dX")>>,
           <<F("f", "c1", 2, TRUE)>>, <<S("s", "t")>>)
 dR2 == Raw(<<D("a", "dA"), D("i", "dI"), D("k", "dB")>>, <<F("f", "c1", 2, TRUE)>>, <<>>)
 
